@@ -175,6 +175,29 @@ darray *= self.channel_conversion_sample2v[self.type][csel]
 def readM {β : Type} (raw : NSel → Except RErr (Block ρ)) (post : Block ρ → β) (nsel : NSel) : Except RErr β :=
   (raw nsel).map post
 
+/-! ### The sample count a reader exposes (`Reader.ns`, `Reader.shape[0]`, `Reader.rl · fs`)
+
+`Reader.ns = int(round(meta['fileTimeSecs'] · fs))`.  `Reader.open` replaces `meta['fileTimeSecs']` when the metadata
+disagrees with the data on disk (interrupted acquisition, late flush):
+```
+if self.is_mtscomp:
+    if self._raw.shape != (self.ns, self.nc):
+        ftsec = self._raw.shape[0] / self.fs ; self.meta["fileTimeSecs"] = ftsec
+else:
+    if self.nc * self.ns * self.dtype.itemsize != self.nbytes:
+        ftsec = self.file_bin.stat().st_size // (self.dtype.itemsize * self.nc) / self.fs ; self.meta["fileTimeSecs"] = ftsec
+```
+`metaNs` is the count announced by `x.meta`; `round(fl(fl(k / fs) · fs)) = k` (proved in C11) is used to read the result
+back as a sample count. -/
+
+/-- `x.bin` of `nbytes` bytes, `frame = itemsize · nc` bytes per sample. -/
+def openNsBin (metaNs frame nbytes : Nat) : Nat :=
+  if metaNs * frame ≠ nbytes then nbytes / frame else metaNs
+
+/-- `x.cbin` whose header announces `chNs = chunk_bounds[-1]` samples. -/
+def openNsCbin (metaNs chNs : Nat) : Nat :=
+  if chNs ≠ metaNs then chNs else metaNs
+
 /-- The selectors on which the two backends are claimed to agree: positive (or absent) step; integer not
 below `-n`. -/
 def NSel.transparent (n : Nat) : NSel → Prop
